@@ -6,6 +6,9 @@ package main
 import (
 	"go/token"
 	"go/types"
+	"sort"
+	"strconv"
+	"strings"
 
 	"golang.org/x/tools/go/ssa"
 )
@@ -65,7 +68,7 @@ func runC17D1(c *Ctx, k *c17kit) {
 		for _, l := range s.created {
 			nComp++
 			c.check("C17.D1", key+"|gzip response writer only when the client accepts gzip", l.v.Pos(), c17holdsAtom(l.b, k.atomAcceptsGzip, 0),
-				"the compressing response writer must be created and served only where strings.Contains(request Accept-Encoding, \"gzip\") is established; otherwise a client that did not ask for gzip receives a compressed body")
+				"the compressing response writer must be created and served only where the request's Accept-Encoding is found to name gzip (strings.Contains(header, \"gzip\"), or a coding cut out of it equals \"gzip\" / \"x-gzip\"), or to carry the wildcard \"*\" together with a weight found to be positive. Here acceptance is not established on every path: another coding counts as acceptance, or a wildcard whose q-value is not examined (\"*;q=0\" is how a client REFUSES every coding it did not list). Such a client receives Content-Encoding: gzip and a compressed body it cannot read"+k.codingsTested())
 		}
 		if len(s.passThru) > 0 {
 			nPass++
@@ -104,6 +107,30 @@ func runC17D1(c *Ctx, k *c17kit) {
 	if nInst == 0 {
 		c.undecided("C17.D1", "anchor|gzip writer installation", "no store of a *gzip.Writer (or of a wrapper type holding one) into the decided-writer field of the response writer")
 	}
+}
+
+// codingsTested: for the message of D1: the constant codings that strings cut out of the request's Accept-Encoding
+// are compared with anywhere in the region.
+func (k *c17kit) codingsTested() string {
+	seen := map[string]bool{}
+	var list []string
+	eachInstrOf(k.fns, func(_ *ssa.Function, i ssa.Instruction) {
+		v, ok := i.(ssa.Value)
+		if !ok {
+			return
+		}
+		for _, truth := range []bool{true, false} {
+			if s, isT := c17codingTest(v, truth); isT && !seen[s] {
+				seen[s] = true
+				list = append(list, strconv.Quote(s))
+			}
+		}
+	})
+	if len(list) == 0 {
+		return ""
+	}
+	sort.Strings(list)
+	return " (the header is tested for: " + strings.Join(list, ", ") + ")"
 }
 
 // ---- H1: headers and status ---------------------------------------------------------------------------------------
@@ -544,7 +571,7 @@ func c17isVary(i ssa.Instruction) bool {
 
 func runC17T2(c *Ctx, k *c17kit) {
 	e := newC17flow(k)
-	for _, m := range k.methods {
+	for _, m := range k.flowEntries() {
 		for _, out := range e.run(m, c17st{}, 0) {
 			if out.inst && !out.reset {
 				e.site("C17.T2", m.Blocks[0].Instrs[0], "pooled writer Reset to the wrapped writer before use", c17dReset, false)
@@ -589,12 +616,12 @@ func runC17T2(c *Ctx, k *c17kit) {
 	// Close / Put touch an acquired writer only
 	nClose := 0
 	eachInstrOf(k.fns, func(f *ssa.Function, i ssa.Instruction) {
-		call, ok := i.(*ssa.Call)
-		if !ok || call.Call.IsInvoke() || calleeName(&call.Call) != "(*compress/gzip.Writer).Close" {
+		cc := callCommon(i) // (a `defer gz.Close()` is a Close as well)
+		if _, isGo := i.(*ssa.Go); cc == nil || isGo || cc.IsInvoke() || calleeName(cc) != "(*compress/gzip.Writer).Close" || len(cc.Args) == 0 {
 			return
 		}
 		nClose++
-		recv := call.Call.Args[0]
+		recv := cc.Args[0]
 		nonNil := c17holds(i.Block(), func(ft Fact) bool {
 			nn, isNil := nilFact(ft, func(v ssa.Value) bool {
 				if v == recv || k.isGz(v) {
